@@ -134,3 +134,117 @@ def replay(rp):
     print("verdict: see the summaries above against the expected values named in the violation (re-run the check to re-judge)")
     shutil.rmtree(ctx.work, ignore_errors=True)
     return 1
+
+
+# ------------------------------------------------------------------------------------------------------------------------
+# C05: a pool of label-value tuples built to be CLOSE to each other in every way a key function could confuse — boundary
+# shifts, swapped positions, repeated / overlapping / dropped 8-byte lanes, zero padding, length changes, values that continue
+# a label name which is a prefix of another label name.  All tuples of the pool are requested from ONE vector: it must end
+# up with exactly one child per distinct tuple, each updated exactly as often as its tuple was used.
+def neighbours(s):
+    out = {s, s + "\0", s + "\0" * 7, "\0" + s, s + s, s[:-1], s[1:], s[::-1], s.swapcase(), s + s[-8:], s + " ", s + "ÿ"}
+    n = len(s)
+    if n > 8:
+        k = (n // 8) * 8
+        if k == n:
+            k -= 8
+        out.add(s[:k] + s[-8:])             # last lane overlapping the previous one
+        out.add(s[:8] + s[:8] + s[8:])      # a lane twice
+        out.add(s[8:] + s[:8])              # lanes rotated
+        out.add(s[:8] + s[16:])             # a lane dropped
+        out.add(s[:k])                      # tail dropped
+        out.add(s[:n // 2] + s[n // 2 - 4:])  # an overlap in the middle
+    return out
+
+
+def adversarial_tuples(rnd, names):
+    alpha = "abAB\0ÿ é=,\"/-_01"
+    bases = ["", "a", "ab", "abcdefgh", "abcdefghijkl", "/api/v2/orders", "name", "hostname", "0" * 16]
+    for ln in (3, 7, 8, 9, 15, 16, 17, 24, 31, 33):
+        for _ in range(2):
+            bases.append("".join(rnd.choice(alpha) for _ in range(ln)))
+    vals = set()
+    for b in bases:
+        vals |= neighbours(b)
+    vals = sorted(vals)
+    k = len(names)
+    tuples = set()
+    few = rnd.sample(vals, min(len(vals), 60))
+    for v in vals:
+        for w in rnd.sample(few, 6):
+            t = [w] * k
+            t[rnd.randrange(k)] = v
+            tuples.add(tuple(t))
+            tuples.add(tuple(reversed(t)))
+    # boundary shifts between adjacent positions
+    for s in vals:
+        for i in range(len(s) + 1):
+            if k == 2:
+                tuples.add((s[:i], s[i:]))
+            else:
+                tuples.add((s[:i], s[i:], "z")); tuples.add(("z", s[:i], s[i:]))
+    # label names that continue each other: name_i + value_i == name_j + value_j' across positions
+    for i in range(k):
+        for j in range(k):
+            if i != j and names[j].startswith(names[i]) and names[j] != names[i]:
+                ext = names[j][len(names[i]):]
+                for x in few[:25]:
+                    for y in few[:25]:
+                        t1 = ["q"] * k; t2 = ["q"] * k
+                        t1[i], t1[j] = ext + x, y
+                        t2[i], t2[j] = ext + y, x
+                        tuples.add(tuple(t1)); tuples.add(tuple(t2))
+    return sorted(tuples)
+
+
+def adversarial_vec_jobs(rnd, quick):
+    jobs = []
+    configs = [(["l1", "l2"], "counter"), (["host", "hostname"], "int_counter"), (["a", "ab"], "gauge"), (["x", "xy", "xyz"], "histogram")]
+    for names, fl in configs:
+        tuples = adversarial_tuples(rnd, names)
+        if quick and len(tuples) > 6000:
+            keep = set(rnd.sample(range(len(tuples)), 6000))
+            tuples = [t for i, t in enumerate(tuples) if i in keep]
+        upd = "observe" if fl == "histogram" else "inc"
+        calls = [{"op": fl + "_vec", "as": "V", "opts": {"name": "m", "help": "h"}, "labels": names}]
+        for t in tuples:
+            calls += [{"op": "with", "vec": "V", "vals": list(t), "as": "c"}, {"op": upd, "obj": "c", "v": 1}]
+        calls.append({"op": "summary", "obj": "V"})
+        for t in tuples:
+            calls += [{"op": "with_map", "vec": "V", "pairs": [[n, v] for n, v in reversed(list(zip(names, t)))], "as": "c"}, {"op": upd, "obj": "c", "v": 1}]
+        calls.append({"op": "summary", "obj": "V"})
+        calls.append({"op": "collect", "obj": "V"})
+        jobs.append({"id": "adv-%s" % "-".join(names), "calls": calls, "names": names, "flavour": fl, "tuples": tuples})
+    return jobs
+
+
+def judge_adversarial(ctx, j, rs, prefix):
+    n = len(j["tuples"])
+    names = j["names"]
+    rp = {"calls": j["calls"][:1] + j["calls"][-1:], "note": "full call list omitted (one `with`+update per tuple of the adversarial pool); see localisation in the message"}
+    bad = [x for x in rs if "ok" not in x]
+    if bad:
+        ctx.violation(prefix + ":call-failed", "%s vector with labels %s, %d tuples: %s" % (j["flavour"], names, n, bad[0]), rp)
+        return False
+    s1, s2 = summary_of(rs[2 * n + 1]), summary_of(rs[4 * n + 2])
+    ok1 = all((s1.get(k, {}).get("i") if isinstance(s1.get(k), dict) else s1.get(k)) == v for k, v in {"samples": n, "distinct": n, "min": 1, "max": 1}.items())
+    ok2 = all((s2.get(k, {}).get("i") if isinstance(s2.get(k), dict) else s2.get(k)) == v for k, v in {"samples": n, "distinct": n, "min": 2, "max": 2}.items())
+    if ok1 and ok2:
+        return True
+    # localise: which tuples share a child / are missing
+    fams = rs[-1]["ok"]
+    seen = {}
+    for f in fams:
+        for m in f["metrics"]:
+            d = dict(map(tuple, m["labels"]))
+            seen[tuple(d[x] for x in names)] = m
+    missing = [t for t in j["tuples"] if t not in seen]
+    heavy = [t for t, m in seen.items() if (m.get("hist", {}).get("count") if j["flavour"] == "histogram" else (m["gauge"] if j["flavour"] == "gauge" else m["counter"]).get("i")) not in (2,)]
+    calls = [j["calls"][0]]
+    for t in (missing[:1] + heavy[:1]):
+        calls += [{"op": "with", "vec": "V", "vals": list(t), "as": "c"}, {"op": "inc" if j["flavour"] != "histogram" else "observe", "obj": "c", "v": 1}]
+    calls.append({"op": "collect", "obj": "V"})
+    ctx.violation(prefix + ":tuples-share-a-child", "%s vector with label names %s: %d distinct tuples were requested (positional form, then map form) and updated once each time; the vector holds %s children "
+                  "(min %s, max %s after the first pass); e.g. tuple %r has no child of its own and tuple %r was updated for it" % (
+                      j["flavour"], names, n, s2.get("samples"), s1.get("min"), s1.get("max"), missing[:1], heavy[:1]), {"calls": calls})
+    return False
